@@ -336,3 +336,84 @@ def strip_not(expr, pol):
     while isinstance(expr, ast.UnaryOp) and isinstance(expr.op, ast.Not):
         expr, pol = expr.operand, not pol
     return expr, pol
+
+
+# ------------------------------------------------------------------------------------------------ ownership through helpers
+
+class CallGraph:
+    """Reverse call graph over resolved internal calls (incl. constructors and context managers)."""
+
+    def __init__(self, ctx, S):
+        self.callers = {}
+        prog = ctx.prog
+        for f in prog.all_functions():
+            for n, cal, effs in S.calls(f):
+                if cal is None:
+                    continue
+                tgt = cal.target if cal.kind == 'internal' else (prog.find_method(cal.target, '__init__') if cal.kind == 'class' else None)
+                if tgt is not None and tgt is not f:
+                    self.callers.setdefault(tgt.qualname, set()).add(f.qualname)
+            for sub in f.nested.values():
+                self.callers.setdefault(sub.qualname, set()).add(f.qualname)
+        self.prog = prog
+
+    def owners(self, q, accept, _seen=None):
+        """Functions that 'own' an effect located in q: climbing the callers of q stops at the first function g with accept(g);
+        a function without callers, or a public one that is not accepted, is a root and is returned as is."""
+        _seen = _seen if _seen is not None else set()
+        if q in _seen:
+            return set()
+        _seen.add(q)
+        if accept(q):
+            return {q}
+        name = q.split('.')[-1].split(':')[-1]
+        callers = self.callers.get(q, set())
+        private = name.startswith('_') and not (name.startswith('__') and name.endswith('__'))
+        if not callers or not private:
+            return {q}
+        out = set()
+        for c in callers:
+            out |= self.owners(c, accept, _seen)
+        return out
+
+
+def _has_param_operand(e):
+    for x in e[1:3]:
+        if isinstance(x, tuple) and x:
+            pk = x[1] if x[0] in ('handle', 'fd') and len(x) > 1 else x
+            for a in alts(pk) if isinstance(pk, tuple) else ():
+                if a and a[0] == 'param':
+                    return True
+    return False
+
+
+def resolved_effect_sites(ctx, S, cg, wanted):
+    """Yield (function that owns the site, call ast node, effect) for every effect whose name is in `wanted`, over the whole package.
+    An effect inside a *private* helper whose operand is one of the helper's parameters is re-evaluated in the ICFG of each caller
+    (actual -> formal binding), and attributed to that caller: extracting a statement into a helper does not hide what it touches."""
+    from ..cfg import Policy
+    prog, E = ctx.prog, ctx.effects
+    for f in prog.all_functions():
+        name = f.qualname.split('.')[-1].split(':')[-1]
+        private = name.startswith('_') and not (name.startswith('__') and name.endswith('__'))
+        for n, cal, effs in S.calls(f):
+            for e in effs:
+                if e[0] not in wanted:
+                    continue
+                callers = cg.callers.get(f.qualname, set()) if private else set()
+                if callers and _has_param_operand(e):
+                    done = False
+                    for cq in sorted(callers):
+                        try:
+                            g = ctx.icfg(cq, {}, Policy(depth=2, only={f.qualname}), key=('only', f.qualname))
+                        except Exception:
+                            continue
+                        for nd in g.nodes:
+                            if nd.frame is not None and nd.frame.fn is f and nd.ast is n:
+                                for e2 in E.of(nd):
+                                    if e2[0] == e[0]:
+                                        done = True
+                                        yield prog.fn(cq), n, e2
+                    if done:
+                        continue
+                yield f, n, e
